@@ -22,6 +22,7 @@ type PropertySpec struct {
 	Entries  []EntrySpec `json:"entries"`
 	Notes    []string    `json:"assumptions"`
 	InitPkgs []string    `json:"init_pkgs"`
+	LabelPrefixes []string `json:"label_prefixes"`
 }
 
 // HarnessDirs maps harness sub-directory to the repo-relative package directory.
@@ -109,7 +110,7 @@ func LoadProgram(repo, harnessRoot string, tags []string) (*Loaded, error) {
 
 var defaultInitPkgs = []string{
 	"errors", "io", "sort", "strconv", "encoding/binary", "bytes", "container/list", "unicode/utf8", "strings", "unicode",
-	"gopkg.in/inf.v0", "math/big", "time", "context", "net", "math", "internal/oserror", "syscall", "io/fs", "os", "internal/poll",
+	"gopkg.in/inf.v0", "math/big", "time", "context", "net", "math", "internal/oserror", "internal/cpu", "io/fs", "math/bits", "internal/bytealg", "internal/itoa", "internal/stringslite", "unicode/utf16", "math/rand", "internal/poll", "internal/testlog", "internal/syscall/unix", "internal/syscall/execenv", "internal/filepathlite", "path", "internal/singleflight", "internal/nettrace", "vendor/golang.org/x/net/dns/dnsmessage", "internal/intern", "sync", "sync/atomic", "internal/race", "crypto/rand", "regexp", "net/netip", "internal/godebug", "internal/bisect", "unique", "internal/byteorder",
 	"github.com/gocql/gocql", "github.com/gocql/gocql/internal/streams", "github.com/gocql/gocql/internal/murmur", "github.com/gocql/gocql/internal/lru",
 }
 
@@ -162,7 +163,8 @@ func (ex *Exec) RunInits(l *Loaded, extra []string) error {
 	ex.Results = &EntryResult{Labels: map[string]*LabelStat{}, Reach: map[string]int{}, SolverS: map[string]float64{}}
 	saveSpec := ex.Spec
 	ex.Spec = &EntrySpec{MaxSteps: 50000000, Unwind: 10000000}
-	defer func() { ex.Spec = saveSpec }()
+	ex.inInit = true
+	defer func() { ex.Spec = saveSpec; ex.inInit = false }()
 	var runInit func(p *ssa.Package) error
 	runInit = func(p *ssa.Package) error {
 		if ex.pkgInit[p] != 0 {
@@ -180,6 +182,11 @@ func (ex *Exec) RunInits(l *Loaded, extra []string) error {
 			}
 		}
 		initFn := p.Func("init")
+		if pp := p.Pkg.Path(); pp == "math/big" || pp == "unique" || pp == "crypto/rand" || pp == "regexp" {
+			// big.Int is an engine intrinsic (BigV); its package state is never used
+			ex.pkgInit[p] = 2
+			return nil
+		}
 		if initFn == nil || initFn.Blocks == nil {
 			ex.pkgInit[p] = 2
 			return nil
@@ -227,6 +234,8 @@ func (ex *Exec) RunInits(l *Loaded, extra []string) error {
 	}
 	ex.baseHeap = st.heap
 	ex.baseNext = st.nextObj
+	ex.baseGhost = st.ghost
+	ex.baseOnce = st.once
 	ex.Steps = 0
 	ex.Forks = 0
 	ex.FnsEntered = map[string]bool{}
@@ -298,6 +307,12 @@ func (ex *Exec) RunEntry(name string) *EntryResult {
 		st.heap[k] = v
 	}
 	st.nextObj = ex.baseNext
+	for k, v := range ex.baseGhost {
+		st.ghost[k] = v
+	}
+	for k, v := range ex.baseOnce {
+		st.once[k] = v
+	}
 	st.frames = []*Frame{ex.newFrame(fn, nil, nil, nil)}
 	work := []*State{st}
 	maxPaths := 200000
@@ -542,6 +557,7 @@ func runJob(cfg RunConfig, ps *PropertySpec, l *Loaded, es EntrySpec, bounds map
 	defer ex.Solver.Close()
 	ex.Trace = cfg.Trace
 	ex.Tier = cfg.Tier
+	ex.LabelPrefixes = ps.LabelPrefixes
 	if !es.NoInit {
 		ex.RunInits(l, ps.InitPkgs)
 	}
